@@ -1,5 +1,5 @@
 """Static text for MANIFEST.json (see gen_manifest.py)."""
-CLAIMED = ["C01", "C02", "C03", "C05", "C06", "C07", "C08", "C13", "C18"]
+CLAIMED = ["C01", "C02", "C03", "C04", "C05", "C06", "C07", "C08", "C10", "C11", "C12", "C13", "C14", "C16", "C18"]
 
 NOTES = ("All checks are seeded searches (VERIF_SEED) over generated worlds executed end-to-end by the "
          "unmodified simulator under monitors; see DESIGN.md. Exit 0 = held (KNOWN-FINDING lines allowed), "
@@ -56,10 +56,42 @@ TEXT = {
               "record of what happened (times, deadlines, pools, resources, scheduler counts), then the same rows "
               "are fed to the project's CSVReader whose reconstruction must match; timeout cuts act as crash points.",
               "deterministic simulation: trace-vs-ground-truth oracle + project CSVReader on every trace"),
+    "C04": _t("Seeded operation histories (allocate / allocate_multiple / deallocate / place / place-in-batch / "
+              "remove / load / evict / copy / deepcopy, with refused requests injected at arbitrary points) on "
+              "Resources, Worker and WorkerPool checked operation by operation against an integer reference ledger, "
+              "plus the in-run clauses (allocated == demand of residents; idle => full capacity) at every event "
+              "boundary of simulated runs.",
+              "deterministic simulation: reference-model check after every operation of a seeded history with injected refusals; in-run ledger invariant"),
+    "C10": _t("Seeded exploration of runs driven by EDF/FIFO/LSF/ILP/TetriSched-Gurobi/TetriSched-CPLEX; every real "
+              "schedule() call is wrapped: returns normally, <=1 decision per task, only offered / own scheduled tasks, "
+              "every offered unscheduled task answered, existing pool/worker, own strategy, time >= now and release, "
+              "joint feasibility on a reference timeline per worker (exact small search when no worker is named), and "
+              "an identical deep snapshot of cluster and task state before/after. Z3 and Clockwork are not covered yet.",
+              "deterministic simulation: per-invocation contract + reference-timeline oracle on states reached by real runs, solver-choice perturbation, runtime overrun"),
+    "C11": _t("Seeded exploration of ILP and TetriSched-Gurobi runs with lookahead / release_taskgraphs; each decision "
+              "is checked: a child is placed only with its co-decided parents, not before parent start + chosen "
+              "runtime, not before a running/scheduled parent's expected finish. 'Every feasible solution' is sampled "
+              "by re-solving the policy's own model under seeded random objectives (fault F6). Z3 is not covered.",
+              "deterministic simulation: per-invocation precedence oracle over solver-choice perturbation"),
+    "C12": _t("Seeded exploration with deadlines generated around the boundary (past / exactly tight / loose): hopeless "
+              "tasks are cancelled (EDF, FIFO, TetriSched-CPLEX) or left unplaced (ILP task-by-task, TetriSched-Gurobi) "
+              "and never placed; planners never choose start + runtime > deadline, also on the F6 alternative "
+              "solutions. Clockwork is not covered yet.",
+              "deterministic simulation: per-invocation admission/deadline oracle over solver-choice perturbation"),
     "C13": _t("Seeded exploration of EDF/FIFO/LSF runs on single-worker pools; at each real invocation a "
               "first-principles ledger replays the placed tasks of higher-or-equal priority and requires that an "
               "unplaced task fits nowhere.",
               "deterministic simulation: per-invocation priority oracle on states reached by real runs"),
+    "C14": _t("Modest: on tiny instances reached inside real runs (<=4 offered tasks, <=2 workers) each unplaced "
+              "offered task of a TetriSched plan is tested against every (slot, worker, strategy) of the planner's own "
+              "published decision space (maximality). The ILP goodput half is not implemented yet.",
+              "deterministic simulation: exhaustive tiny reference planner at each invocation of a real run"),
+    "C16": _t("Seeded operation histories on EventQueue (add / next / remove / in-place re-timing + reheapify / peek / "
+              "next-of-type) against a sorted-list reference with the documented (time, type priority, task name) "
+              "order, EventTime algebra sampled along the histories against integer microseconds, and the same "
+              "pop-order oracle online in simulated runs. The algebraic 'for all triples' quantifier is sampled, not "
+              "enumerated.",
+              "deterministic simulation: reference-model check of seeded queue histories + online pop-order monitor"),
     "C18": _t("Seeded exploration; every real Workload.get_schedulable_tasks call and every task-completion "
               "notification in a run is compared with a reference frontier built from the shadow task states and "
               "the spec's parent map.",
